@@ -60,6 +60,20 @@ def instances(rng, nodes, imps):
         out.append(("alias", [_case(nodes, imps, "not", imp, False, sk, s1, sk, s1, anything=True),
                               _case(nodes, imps, "not", imp, True, sk, s1, sk, s1)],
                     lambda v: v[0] == v[1]))
+    # alias with a batch of pairwise unrelated subjects (the parent/sub-module de-duplication must leave them alone)
+    pool = nodes[:]
+    rng.shuffle(pool)
+    batch = []
+    for c in pool:
+        if all(not gen.related(c, d) for d in batch):
+            batch.append(c)
+        if len(batch) == 3:
+            break
+    if len(batch) >= 2:
+        for imp in (True, False):
+            out.append(("alias-batch", [_case(nodes, imps, "not", imp, False, sk, batch, sk, batch, anything=True),
+                                        _case(nodes, imps, "not", imp, True, sk, batch, sk, batch)],
+                        lambda v: v[0] == v[1]))
     # monotonicity: add one import between unrelated modules
     cand = [(u, v) for u in nodes for v in nodes if not gen.related(u, v) and (u, v) not in imps]
     if cand:
